@@ -25,7 +25,7 @@ for sid in ids:
     if sh("git diff --quiet", REPO).returncode == 0:
         res["applies"] = False
         print(sid, "PATCH DOES NOT APPLY", r.stderr[-200:])
-        sh("git reset -q --hard HEAD", REPO)
+        sh("git reset -q --hard HEAD; git clean -fdq src tests", REPO)
         json.dump(res, open(os.path.join(d, "result.json"), "w"), indent=1)
         continue
     res["applies"] = True
@@ -42,6 +42,6 @@ for sid in ids:
             res["checks"][c] = {"verdict": verdict, "tags": tags[:6], "wall_s": round(time.time() - t0, 1)}
             print(sid, c, verdict, tags[:3])
     finally:
-        sh("git reset -q --hard HEAD; git clean -fdq tests", REPO)
+        sh("git reset -q --hard HEAD; git clean -fdq src tests", REPO)
     json.dump(res, open(os.path.join(d, "result.json"), "w"), indent=1)
 assert sh("git diff --quiet", REPO).returncode == 0
